@@ -202,6 +202,7 @@ pub struct Run {
     pub excluded_known: BTreeMap<String, u64>,
     pub notes: Vec<String>,
     pub extra: BTreeMap<String, Value>,
+    pub infra_error: Option<String>,
 }
 
 fn seed_bytes(seed: u64, id: &str, phase: &str, shard: usize) -> [u8; 32] {
@@ -227,6 +228,7 @@ impl Run {
             excluded_known: BTreeMap::new(),
             notes: Vec::new(),
             extra: BTreeMap::new(),
+            infra_error: None,
         }
     }
 
@@ -450,6 +452,10 @@ impl Run {
 
     /// Writes evidence, replay files, prints verdict lines; returns process exit code.
     pub fn finish(self, level: &str, rule: &str, assumptions: &[&str]) -> i32 {
+        if let Some(e) = &self.infra_error {
+            eprintln!("INCONCLUSIVE property={} {}", self.id, e);
+            return 2;
+        }
         let wall = self.started.elapsed().as_secs_f64();
         let mut evaluations = 0u64;
         let mut cases = 0u64;
